@@ -23,6 +23,28 @@ with contextlib.redirect_stdout(io.StringIO()):
     import panoptica.instance_evaluator as _instance_evaluator
 
 
+import random as _random
+
+_POOL_RNG = _random.Random(12345)
+
+
+class _Done:
+    def __init__(self, v):
+        self._v = v
+
+    def get(self, timeout=None):
+        return self._v
+
+    def wait(self, timeout=None):
+        return None
+
+    def ready(self):
+        return True
+
+    def successful(self):
+        return True
+
+
 class SerialPool:
     """Stands in for multiprocessing.Pool(): same starmap contract, executed in-process."""
 
@@ -40,6 +62,28 @@ class SerialPool:
 
     def map(self, f, it):
         return [f(x) for x in it]
+
+    def imap(self, f, it, chunksize=1):
+        return iter([f(x) for x in it])
+
+    def imap_unordered(self, f, it, chunksize=1):
+        # completion order is not the submission order
+        items = list(it)
+        order = list(range(len(items)))
+        _POOL_RNG.shuffle(order)
+        return iter([f(items[i]) for i in order])
+
+    def starmap_async(self, f, it, *a, **k):
+        return _Done([f(*args) for args in it])
+
+    def map_async(self, f, it, *a, **k):
+        return _Done([f(x) for x in it])
+
+    def apply_async(self, f, args=(), kwds=None, *a, **k):
+        return _Done(f(*args, **(kwds or {})))
+
+    def apply(self, f, args=(), kwds=None):
+        return f(*args, **(kwds or {}))
 
     def close(self):
         pass
